@@ -28,7 +28,7 @@ Acquire(rid, eid, pid, ttl) == [kind |-> "AcquireLock", a |-> [rid |-> rid, eid 
 Release(rid, eid) == [kind |-> "ReleaseLock", a |-> [rid |-> rid, eid |-> eid]]
 BeatLocks(pid) == [kind |-> "HeartbeatLocks", a |-> [pid |-> pid]]
 Schedule(id, cron, promiseId, ikey, ptags) ==
-  [kind |-> "CreateSchedule", a |-> [id |-> id, desc |-> "", cron |-> cron, tags |-> NoTags, promiseId |-> promiseId, promiseTimeout |-> 3,
+  [kind |-> "CreateSchedule", a |-> [id |-> id, desc |-> "", cron |-> cron, tags |-> NoTags, promiseId |-> promiseId, promiseTimeout |-> 3000,
                                      promiseParam |-> EmptyValue, promiseTags |-> ptags, ikey |-> ikey]]
 ReadS(id) == [kind |-> "ReadSchedule", a |-> [id |-> id]]
 DeleteS(id) == [kind |-> "DeleteSchedule", a |-> [id |-> id]]
@@ -114,10 +114,10 @@ Times_locks == {2, 4}
 
 \* --- sched: a schedule (period 2; its promise id is fixed, so every occurrence but the first meets an existing
 \*     promise) is created again, deleted and read while it fires
-Setup_sched == << Schedule("s", 2, "sp", Some("k"), NoTags) >>
+Setup_sched == << Schedule("s", 2000, "sp", Some("k"), NoTags) >>
 DB_sched == Build(EmptyDB, Setup_sched)
-Script_sched == << Schedule("s", 2, "sp2", Some("k"), NoTags), Schedule("s", 2, "sp2", None, Routed1), DeleteS("s"), ReadS("s"), Create("sp", 9, None, FALSE, NoTags) >>
-Times_sched == {2, 4}
+Script_sched == << Schedule("s", 2000, "sp2", Some("k"), NoTags), Schedule("s", 2000, "sp2", None, Routed1), DeleteS("s"), ReadS("s"), Create("sp", 9000, None, FALSE, NoTags) >>
+Times_sched == {2000, 4000}
 
 \* --- starve: root "a" has a task handed off and a sibling waiting behind it; root "b" has a task of its own.
 \*     With a task batch of ONE the dispatcher must still get to "b" (replayed with TaskBatchSize 1 and the
